@@ -282,7 +282,22 @@ func RunEntry(l *driver.Loaded, b *Builder, entryKey string, opt RunOpts) (*Entr
 				}
 				textOnly := false
 				for _, t := range con.Attrs["o-text-only"] {
-					if strings.Contains(","+PathTag(p)+",", ","+strings.TrimSpace(t)+",") {
+					t = strings.TrimSpace(t)
+					if strings.HasPrefix(t, "decision:") {
+						for _, d := range p.Decisions {
+							if d == strings.TrimPrefix(t, "decision:") {
+								textOnly = true
+							}
+						}
+						continue
+					}
+					if strings.HasPrefix(t, "contains:") {
+						if strings.Contains(PathTag(p), strings.TrimPrefix(t, "contains:")) {
+							textOnly = true
+						}
+						continue
+					}
+					if strings.Contains(","+PathTag(p)+",", ","+t+",") {
 						textOnly = true
 					}
 				}
